@@ -2,6 +2,7 @@
 from __future__ import annotations
 
 import copy
+import os
 
 from harness import core
 from harness.core import Z
@@ -463,9 +464,134 @@ class Qcow2VmdkStreamSuite(Suite):
         return {"fmt": case["fmt"], "bufsize": case["bufsize"], "nops": len(case["ops"]) // 5 * 5}
 
 
+
+# ----------------------------------------------------------------------------- differencing VHDX chains as streams
+def vhdx_chain_content(case, files):
+    """python oracle: (start, len) -> guest bytes of a VHDX chain (c07.VhdxChain case), sector by sector: the topmost layer
+    whose block is fully present, or partially present with the sector's bitmap bit set, holds the sector; a block that is
+    not present defers to the parent when the layer has one; every other state reads as zeros"""
+    ss = case["sector_size"]
+    MBb = 1 << 20
+
+    def sector(sec):
+        for d, l in enumerate(case["layers"]):
+            spb = l["block_size"] // ss
+            b, i = divmod(sec, spb)
+            st, mb = l["blocks"][b]
+            if st == 6:
+                return files[d].content(mb * MBb + i * ss, ss)
+            if st == 7:
+                sbmb = l["sb"][0][1]
+                bm = bytes.fromhex(l["bitmaps"][str(sbmb * MBb + b * (spb // 8))])
+                if (bm[i // 8] >> (i % 8)) & 1:
+                    return files[d].content(mb * MBb + i * ss, ss)
+                continue
+            if st == 0 and l["has_parent"]:
+                continue
+            return b"\x00" * ss
+        return b"\x00" * ss
+
+    def content(start, ln):
+        if ln <= 0:
+            return b""
+        s0 = start // ss
+        s1 = (start + ln + ss - 1) // ss
+        buf = b"".join(sector(x) for x in range(s0, s1))
+        return buf[start - s0 * ss:start - s0 * ss + ln]
+    return content
+
+
+class VhdxChainStream(Suite):
+    """Histories on a differencing VHDX opened by path over its parents (partially present blocks with sector bitmaps),
+    at one stream buffer size.  The stream state machine (positions, lengths, exceptions) is the Coq model over an
+    abstract back end that meets the contract; the array content is the chain oracle above."""
+    shard = 10
+    per_case_timeout = 90.0
+
+    def __init__(self, bufsize):
+        self.bufsize = bufsize
+        self.name = f"vhdxchain_{bufsize}"
+        self.env = {"DISSECT_STREAM_BUFFER_SIZE": bufsize}
+        self.preamble = ("From Coq Require Import ZArith List.\nImport ListNotations.\nOpen Scope Z_scope.\n"
+                         "From DH Require Import Base.Plan Base.Table Model.AlignedStream.\n")
+
+    def generate(self, rng, tier):
+        from harness.props import c07
+        base = c07.VhdxChain().generate(rng, tier)
+        out = []
+        for c in base:
+            if self.bufsize % c["sector_size"] or len(out) >= (60 if tier == "thorough" else 6):
+                continue
+            ops = []
+            # reads at sector positions that are no multiple of 8 (inside a bitmap byte), of a few sectors
+            nsect = c["size"] // c["sector_size"]
+            for _ in range(6):
+                sec = rng.randrange(0, nsect)
+                ops.append(["seek", sec * c["sector_size"] + rng.pick([0, 0, 1, 511]), 0])
+                ops.append(["read", rng.randint(1, 24) * c["sector_size"] - rng.pick([0, 0, 3])])
+            ops += gen_ops(rng, c["size"], self.bufsize, rng.randint(3, 12))
+            # no unbounded reads of multi-MiB disks sector by sector: cap read-to-end to the last 64 KiB
+            ops = [o for o in ops if not (o[0] in ("read", "peek", "readoffset") and (o[-1] < 0 or o[-1] > 300000))]
+            out.append({"chain": {k: c[k] for k in ("layers", "size", "sector_size")}, "bufsize": self.bufsize, "ops": ops})
+        return out
+
+    def impl(self, case):
+        import shutil
+        import tempfile
+        from pathlib import Path
+
+        import dissect.util.stream as st
+        from harness import fmt_vhdx
+        if st.STREAM_BUFFER_SIZE != case["bufsize"]:
+            return {"outcome": "crash", "detail": f"buffer size not applied: {st.STREAM_BUFFER_SIZE}"}
+        from dissect.hypervisor.disk.vhdx import VHDX
+        ch = case["chain"]
+        tmp = tempfile.mkdtemp(prefix="verif_c08x_")
+        try:
+            for d, l in enumerate(ch["layers"]):
+                sf = fmt_vhdx.build(l)
+                with open(os.path.join(tmp, f"L{d}.vhdx"), "wb") as fh:
+                    fh.truncate(l["file_size"])
+                    for off, b in sf._chunks:
+                        fh.seek(off)
+                        fh.write(b)
+                    for stt, mb in l["blocks"]:
+                        if stt in (6, 7):
+                            fh.seek(mb * (1 << 20))
+                            fh.write(sf.content(mb * (1 << 20), l["block_size"]))
+            top = VHDX(Path(tmp) / "L0.vhdx")
+            if top.align != case["bufsize"]:
+                return {"outcome": "crash", "detail": f"align {top.align}"}
+            return run_ops(top, case["ops"])
+        finally:
+            shutil.rmtree(tmp, ignore_errors=True)
+
+    def coq_term(self, case):
+        size, align = case["chain"]["size"], case["bufsize"]
+        ops = coq_ops(case["ops"])
+        return (f"(run_outs {size} {align} (fun off len => Ok (Z.min len ({size} - off))) {ops}, spec_run {size} 0 {ops})")
+
+    def judge(self, case, impl_res, coq_val):
+        if isinstance(impl_res, dict):
+            return [Finding("impl_fault", f"implementation {impl_res}", "vhdxchain:stream:" + str(impl_res.get("outcome")))]
+        from harness import fmt_vhdx
+        _, model_v, spec_v = coq_val
+        files = [fmt_vhdx.build(l) for l in case["chain"]["layers"]]
+        return compare_history(case["ops"], impl_res, model_v, spec_v, vhdx_chain_content(case["chain"], files), "vhdxchain")
+
+    def nontrivial(self, case, impl_res, coq_val):
+        return core.sha(core.jdump(case).encode())
+
+    def dist(self, case):
+        return {"bufsize": case["bufsize"], "depth": len(case["chain"]["layers"]), "ss": case["chain"]["sector_size"],
+                "partial_blocks": sum(1 for l in case["chain"]["layers"] for stt, _ in l["blocks"] if stt == 7)}
+
+
 SUITES = {"synth": SynthSuite()}
 for _f in ("qcow2", "vmdk"):
     for _b in (512, 8192, 131072):
         SUITES[f"{_f}_{_b}"] = Qcow2VmdkStreamSuite(_f, _b)
 for _b in (512, 4096, 8192, 65536, 2097152):
     SUITES[f"readers_{_b}"] = ReaderStreamSuite(_b)
+for _b in (512, 1536, 8192):
+    SUITES[f"vhdxchain_{_b}"] = VhdxChainStream(_b)
